@@ -1,5 +1,5 @@
 (** Proofs about the coarsening model (Model/Coarsen.v): C08. *)
-From Cooler Require Import Model.Coarsen Proofs.BinsProofs Proofs.PixelsProofs.
+From Cooler Require Import Model.Coarsen Proofs.BinsProofs Proofs.PixelsProofs Proofs.CoarsenGroupBy.
 From Coq Require Import Sorted Permutation ZifyBool.
 Ltac Zify.zify_post_hook ::= Z.to_euclidean_division_equations.
 
@@ -1708,3 +1708,423 @@ Proof.
 Qed.
 Lemma ssorted_b_rowsorted px : ssorted_b px = true -> RowSorted px.
 Proof. intros H. apply ssorted_rowsorted. now apply ssorted_b_spec. Qed.
+
+(* =====================================================================================
+   Any value type and any aggregation: the chunk stream is ONE group-by of the re-keyed pixels
+   ===================================================================================== *)
+Lemma slice_split_g {A} (px : list A) a b : 0 <= a <= b ->
+  skipn (Z.to_nat a) px = slice px a b ++ skipn (Z.to_nat b) px.
+Proof.
+  intros H. unfold slice. replace (Z.to_nat b) with (Z.to_nat a + Z.to_nat (b - a))%nat by lia.
+  rewrite skipn_add. symmetry. apply firstn_skipn.
+Qed.
+
+Lemma filter_map_length {A B} (h : A -> B) (f : B -> bool) l :
+  length (filter f (map h l)) = length (filter (fun x => f (h x)) l).
+Proof. induction l as [|x l IH]; [reflexivity|]. cbn [map filter]. destruct (f (h x)); cbn [length]; now rewrite IH. Qed.
+
+Section GenericExact.
+  Context {V : Type}.
+  Notation recd := (key * V)%type.
+  Variable agg : list V -> V.
+
+  (** the key columns of a table, as a count-less pixel table: edges and alignment only depend on it *)
+  Definition shadow (px : list recd) : list pixel := map (fun p => (fst p, 0)) px.
+
+  Lemma shadow_length px : zlen (shadow px) = zlen px.
+  Proof. unfold zlen, shadow. now rewrite map_length. Qed.
+
+  Lemma bin1_offset_shadow n px : bin1_offset_g n px = bin1_offset n (shadow px).
+  Proof.
+    unfold bin1_offset_g, bin1_offset. apply map_ext. intros i. unfold zlen, shadow. f_equal.
+    rewrite filter_map_length. reflexivity.
+  Qed.
+
+  Lemma edges_shadow t px k cs : coarsener_edges_g t px k cs = coarsener_edges t (shadow px) k cs.
+  Proof. unfold coarsener_edges_g, coarsener_edges. now rewrite bin1_offset_shadow. Qed.
+
+  Lemma shadow_slice px a b : shadow (slice px a b) = slice (shadow px) a b.
+  Proof. unfold shadow, slice. now rewrite skipn_map, firstn_map. Qed.
+
+  Section Stream.
+    Variable tbl : list Z.
+    Variable px : list recd.
+    Let f := fun r => znth tbl r 0.
+
+    Lemma gb_keys_before c (a b : list recd) :
+      AlignedCut f (shadow px) c ->
+      (forall p, In p a -> In (fst p, 0) (firstn c (shadow px))) ->
+      (forall q, In q b -> In (fst q, 0) (skipn c (shadow px))) ->
+      forall k1 k2, In k1 (map fst (map (grekey tbl) a)) -> In k2 (map fst (map (grekey tbl) b)) -> klt k1 k2.
+    Proof.
+      intros HA Ha Hb k1 k2 H1 H2. rewrite map_map in H1, H2.
+      apply in_map_iff in H1 as [p [<- Hp]]. apply in_map_iff in H2 as [q [<- Hq]].
+      left. cbn [fst grekey]. apply (HA (fst p, 0) (fst q, 0)); auto.
+    Qed.
+
+    Lemma spans_exact e : forall a,
+      StronglySorted Z.lt (a :: e) -> 0 <= a -> last (a :: e) 0 = zlen px ->
+      Forall (fun c => AlignedCut f (shadow px) (Z.to_nat c)) (a :: e) ->
+      concat (map (aggregate_span_g agg px tbl) (spans (a :: e))) =
+      groupby_agg agg (map (grekey tbl) (skipn (Z.to_nat a) px)).
+    Proof.
+      induction e as [|b r IH]; intros a HS Ha Hlast Hal.
+      - cbn [last] in Hlast. subst a. unfold zlen. rewrite Nat2Z.id, skipn_all. reflexivity.
+      - rewrite spans_cons. cbn [map concat].
+        inversion HS as [|? ? HS' Hall]; subst. inversion Hall as [|? ? Hab _]; subst.
+        inversion Hal as [|? ? _ Hal']; subst.
+        rewrite IH; auto; [|lia].
+        unfold aggregate_span_g at 1. cbn [fst snd].
+        rewrite (slice_split_g px a b) by lia. rewrite map_app. symmetry. apply groupby_agg_app.
+        inversion Hal' as [|? ? Hb _]; subst.
+        apply (gb_keys_before (Z.to_nat b)); auto.
+        + intros p Hp. apply (slice_in_firstn (shadow px) a b); [lia|].
+          rewrite <- shadow_slice. unfold shadow. apply in_map_iff. exists p. auto.
+        + intros q Hq. unfold shadow. rewrite skipn_map. apply in_map_iff. exists q. auto.
+    Qed.
+  End Stream.
+
+  (** index level *)
+  Theorem coarsen_stream_exact lens px k cs bs :
+    1 <= k -> 1 <= cs -> 1 <= bs ->
+    Forall (fun n => 1 <= n) lens -> RowSorted (shadow px) -> Forall (fun p => 0 <= row p < sumZ lens) (shadow px) ->
+    let tbl := index_table lens k in
+    let edges := greedy_prune_partition (coarse_edges (0 :: cumsum lens) (bin1_offset_g (sumZ lens) px) k) cs in
+    concat (coarsener_iter_g agg px tbl edges bs) = groupby_agg agg (map (grekey tbl) px).
+  Proof.
+    intros Hk Hcs Hbs Hlens HS Hrows tbl edges.
+    destruct (coarse_edges_facts lens (shadow px) k Hk Hlens HS Hrows) as ((rest & HE) & HSE & Hlast & Hal).
+    unfold edges. rewrite bin1_offset_shadow. rewrite HE in *.
+    destruct (prune_subsequence rest cs HSE Hcs) as ((idx & Hp & Hidxs & Hidxr) & Hhd & Hl & Hps).
+    set (p := greedy_prune_partition (0 :: rest) cs) in *.
+    unfold coarsener_iter_g. rewrite iter_batches by exact Hbs.
+    assert (Halp : Forall (fun c => AlignedCut (fun r => znth tbl r 0) (shadow px) (Z.to_nat c)) p).
+    { rewrite Hp. apply Forall_forall. intros c Hc. apply in_map_iff in Hc as [i [<- Hi]].
+      rewrite Forall_forall in Hal, Hidxr. apply Hal. unfold znth. apply nth_In.
+      specialize (Hidxr i Hi). unfold zlen in Hidxr. lia. }
+    rewrite Hlast, shadow_length in Hl.
+    destruct p as [|a e] eqn:Ep.
+    - cbn [last] in Hl. destruct px; [reflexivity|]. unfold zlen in Hl. cbn in Hl. lia.
+    - cbn [hd] in Hhd. subst a.
+      rewrite (spans_exact tbl px e 0 Hps ltac:(lia)); [reflexivity|exact Hl|exact Halp].
+  Qed.
+
+  (** coarsen_cooler with ANY aggregation: the concatenated chunk stream is the group-by of the pixels
+      re-keyed by index — each new pixel's value is agg of exactly the old values that fall into it, in
+      storage order — for every valid (fixed or variable) bin table, k, chunk size and batch size *)
+  Theorem coarsen_exact blocks px k cs bs :
+    1 <= k -> 1 <= cs -> 1 <= bs -> ValidBlocks blocks ->
+    RowSorted (shadow px) -> InRangeRows (zlen (concat blocks)) (shadow px) ->
+    coarsen_pixels_g agg (concat blocks) (map chrom_end blocks) px k cs bs = coarsen_spec_g agg (map zlen blocks) px k.
+  Proof.
+    intros Hk Hcs Hbs HV HS Hr. unfold coarsen_pixels_g, coarsener_edges_g, coarsen_spec_g.
+    rewrite (rebin_eq_index blocks k Hk HV), (chrom_offset_valid blocks HV), zlen_concat.
+    apply coarsen_stream_exact; auto.
+    - now apply valid_lens.
+    - unfold InRangeRows in Hr. now rewrite zlen_concat in Hr.
+  Qed.
+
+  Corollary coarsen_exact_chunk_independent blocks px k cs1 bs1 cs2 bs2 :
+    1 <= k -> 1 <= cs1 -> 1 <= bs1 -> 1 <= cs2 -> 1 <= bs2 -> ValidBlocks blocks ->
+    RowSorted (shadow px) -> InRangeRows (zlen (concat blocks)) (shadow px) ->
+    coarsen_pixels_g agg (concat blocks) (map chrom_end blocks) px k cs1 bs1 =
+    coarsen_pixels_g agg (concat blocks) (map chrom_end blocks) px k cs2 bs2.
+  Proof. intros. now rewrite !coarsen_exact by assumption. Qed.
+
+  (** pixel-wise reading of the group-by *)
+  Theorem coarsen_pixelwise blocks px k cs bs :
+    1 <= k -> 1 <= cs -> 1 <= bs -> ValidBlocks blocks ->
+    RowSorted (shadow px) -> InRangeRows (zlen (concat blocks)) (shadow px) ->
+    let out := coarsen_pixels_g agg (concat blocks) (map chrom_end blocks) px k cs bs in
+    let src := map (grekey (index_table (map zlen blocks) k)) px in
+    StronglySorted klt (map fst out) /\
+    (forall key, In key (map fst out) <-> In key (map fst src)) /\
+    (forall key v, In (key, v) out -> v = agg (vals src key)).
+  Proof.
+    intros Hk Hcs Hbs HV HS Hr out src. unfold out. rewrite coarsen_exact by assumption. unfold coarsen_spec_g. fold src.
+    split; [apply groupby_agg_sorted|]. split; [intro; apply groupby_agg_keys|intros; now apply groupby_agg_value].
+  Qed.
+End GenericExact.
+
+(** the sum instance IS the model used so far (Canon / aggregate of Model/Pixels.v) *)
+Lemma shadow_pixel_rows (px : list pixel) : map row (shadow px) = map row px.
+Proof. unfold shadow. rewrite map_map. reflexivity. Qed.
+
+Theorem coarsen_pixels_sum t sizes (px : list pixel) k cs bs :
+  coarsen_pixels_g sumZ t sizes px k cs bs = coarsen_pixels t sizes px k cs bs.
+Proof.
+  unfold coarsen_pixels_g, coarsen_pixels, coarsener_iter_g, coarsener_iter, coarsener_edges_g, coarsener_edges. f_equal.
+  assert (E : bin1_offset_g (zlen t) px = bin1_offset (zlen t) px) by reflexivity. rewrite E.
+  f_equal. apply map_ext. intros l. apply map_ext. intros s.
+  unfold aggregate_span_g, aggregate_span. rewrite groupby_sum_aggregate. reflexivity.
+Qed.
+
+(* ================================================ aggregations that compose over a partition *)
+(** permutation invariance, and: aggregating the aggregates of the non-empty blocks of a partition
+    equals aggregating everything *)
+Definition AggPerm {V} (agg : list V -> V) : Prop := forall vs vs', Permutation vs vs' -> agg vs = agg vs'.
+Definition AggDecomp {V} (agg : list V -> V) : Prop := forall xss : list (list V),
+  agg (concat (map (fun xs => match xs with [] => [] | _ => [agg xs] end) xss)) = agg (concat xss).
+(** the plain form of the law (over non-empty blocks) implies the form used in the proofs *)
+Definition AggComposes {V} (agg : list V -> V) : Prop :=
+  forall Gs : list (list V), Forall (fun G => G <> []) Gs -> agg (map agg Gs) = agg (concat Gs).
+
+Definition nonempty_b {A} (xs : list A) : bool := match xs with [] => false | _ => true end.
+Lemma decomp_lhs {V} (agg : list V -> V) xss :
+  concat (map (fun xs => match xs with [] => [] | _ => [agg xs] end) xss) = map agg (filter nonempty_b xss).
+Proof. induction xss as [|[|x xs] t IH]; [reflexivity|exact IH|]. cbn [map concat filter nonempty_b app]. now rewrite IH. Qed.
+Lemma concat_filter_nonempty {A} (xss : list (list A)) : concat xss = concat (filter nonempty_b xss).
+Proof. induction xss as [|[|x xs] t IH]; [reflexivity|exact IH|]. cbn [concat filter nonempty_b]. now rewrite IH. Qed.
+
+Lemma composes_decomp {V} (agg : list V -> V) : AggComposes agg -> AggDecomp agg.
+Proof.
+  intros H xss. rewrite decomp_lhs, (concat_filter_nonempty xss). apply H.
+  apply Forall_forall. intros G HG. apply filter_In in HG as [_ HG]. destruct G; [discriminate|discriminate].
+Qed.
+
+Section GenericCompose.
+  Context {V : Type}.
+  Notation recd := (key * V)%type.
+  Variable agg : list V -> V.
+  Hypothesis Hperm : AggPerm agg.
+  Hypothesis Hdecomp : AggDecomp agg.
+
+  Definition mapkey_g (gk : key -> key) (p : recd) : recd := (gk (fst p), snd p).
+  Definition ungroup1 (g : key * list V) : list recd := map (fun v => (fst g, v)) (snd g).
+
+  Lemma perm_ungroup_gins k v g :
+    Permutation (concat (map ungroup1 (gins k v g))) ((k, v) :: concat (map ungroup1 g)).
+  Proof.
+    induction g as [|[k' vs] t IH]; cbn [gins map concat]; [reflexivity|].
+    destruct (kcmp k k') eqn:E; cbn [map concat].
+    - apply kcmp_eq in E. subst k'. unfold ungroup1 at 1 3. cbn [fst snd]. rewrite map_app. cbn [map].
+      rewrite <- app_assoc. cbn [app]. symmetry. apply Permutation_middle.
+    - reflexivity.
+    - rewrite IH. symmetry. apply Permutation_middle.
+  Qed.
+
+  Lemma perm_ungroup (l : list recd) : Permutation (concat (map ungroup1 (group l))) l.
+  Proof.
+    unfold group.
+    assert (H : forall acc, Permutation (concat (map ungroup1 (fold_left (fun acc p => gins (fst p) (snd p) acc) l acc)))
+                                         (concat (map ungroup1 acc) ++ l)).
+    { induction l as [|[k v] l IH]; intros acc; cbn [fold_left]; [now rewrite app_nil_r|].
+      rewrite IH. cbn [fst snd]. rewrite perm_ungroup_gins. cbn [app]. apply Permutation_middle. }
+    rewrite H. reflexivity.
+  Qed.
+
+  Lemma group_nonempty (l : list recd) : Forall (fun g => snd g <> []) (group l).
+  Proof.
+    unfold group.
+    assert (H : forall acc, Forall (fun g : key * list V => snd g <> []) acc ->
+                 Forall (fun g : key * list V => snd g <> []) (fold_left (fun acc p => gins (fst p) (snd p) acc) l acc)).
+    { induction l as [|[k v] l IH]; intros acc HA; cbn [fold_left]; [exact HA|]. apply IH. cbn [fst snd].
+      clear IH. induction HA as [|[k' vs] t Hg HA IHa]; cbn [gins]; [constructor; [discriminate|constructor]|].
+      destruct (kcmp k k'); constructor; auto; cbn [snd] in *.
+      - intros X. apply app_eq_nil in X as [_ X]. discriminate.
+      - discriminate. }
+    apply H. constructor.
+  Qed.
+
+  Lemma group_const K (vs : list V) : vs <> [] -> group (map (fun v => (K, v)) vs) = [(K, vs)].
+  Proof.
+    intros Hne. unfold group.
+    assert (H : forall ws acc0, fold_left (fun acc (p : recd) => gins (fst p) (snd p) acc) (map (fun v => (K, v)) ws) [(K, acc0)] = [(K, acc0 ++ ws)]).
+    { induction ws as [|w ws IH]; intros acc0; cbn [map fold_left]; [now rewrite app_nil_r|].
+      cbn [fst snd gins]. rewrite kcmp_refl, IH, <- app_assoc. reflexivity. }
+    destruct vs as [|v vs]; [congruence|]. cbn [map fold_left fst snd gins]. now rewrite H.
+  Qed.
+
+  (** re-keying through any key map commutes with the group-by, for an aggregation that composes *)
+  Theorem groupby_mapkey gk (l : list recd) :
+    groupby_agg agg (map (mapkey_g gk) (groupby_agg agg l)) = groupby_agg agg (map (mapkey_g gk) l).
+  Proof.
+    set (Gs := map (fun g => map (mapkey_g gk) (ungroup1 g)) (group l)).
+    assert (E1 : concat (map (groupby_agg agg) Gs) = map (mapkey_g gk) (groupby_agg agg l)).
+    { unfold Gs, groupby_agg at 2. rewrite !map_map. pose proof (group_nonempty l) as Hne.
+      induction Hne as [|[k vs] t Hg _ IH]; [reflexivity|]. cbn [map concat]. rewrite IH. f_equal.
+      unfold ungroup1. cbn [fst snd] in *. rewrite map_map. unfold mapkey_g at 1. cbn [fst snd].
+      unfold groupby_agg. rewrite (group_const (gk k) vs Hg). reflexivity. }
+    assert (E2 : Permutation (concat Gs) (map (mapkey_g gk) l)).
+    { unfold Gs. rewrite <- map_map, <- concat_map. apply Permutation_map. apply perm_ungroup. }
+    rewrite <- E1, (groupby_agg_two_level agg Hdecomp Gs).
+    apply (groupby_agg_perm agg Hperm). exact E2.
+  Qed.
+
+  Lemma grekey_mapkey tbl (l : list recd) : map (grekey tbl) l = map (mapkey_g (gkey tbl)) l.
+  Proof. apply map_ext. intros p. reflexivity. Qed.
+
+  (** k1 then k2 = k1*k2, index level, any bin widths *)
+  Theorem coarsen_spec_compose_g lens (px : list recd) k1 k2 :
+    1 <= k1 -> 1 <= k2 -> Forall (fun n => 0 <= n) lens -> InRange (sumZ lens) (shadow px) ->
+    coarsen_spec_g agg (map (fun n => cdiv n k1) lens) (coarsen_spec_g agg lens px k1) k2 = coarsen_spec_g agg lens px (k1 * k2).
+  Proof.
+    intros H1 H2 HF Hr. unfold coarsen_spec_g.
+    rewrite (grekey_mapkey (index_table (map (fun n => cdiv n k1) lens) k2)), groupby_mapkey, <- grekey_mapkey.
+    f_equal. rewrite map_map. apply map_ext_in. intros p Hp.
+    unfold InRange in Hr. rewrite Forall_forall in Hr.
+    destruct (Hr (fst p, 0) ltac:(unfold shadow; apply in_map_iff; exists p; auto)) as [Rr Rc].
+    unfold row, col in Rr, Rc. cbn [fst snd] in Rr, Rc.
+    pose proof (index_table_compose lens k1 k2 H1 H2 HF) as Hc.
+    assert (Hlen : zlen (index_table lens k1) = sumZ lens) by (unfold index_table; now apply itf_length).
+    assert (Hz : forall i, 0 <= i < sumZ lens ->
+              znth (index_table (map (fun n => cdiv n k1) lens) k2) (znth (index_table lens k1) i 0) 0
+              = znth (index_table lens (k1 * k2)) i 0).
+    { intros i Hi. rewrite <- Hc. unfold znth at 3.
+      symmetry. apply nth_error_nth. rewrite nth_error_map.
+      rewrite (nth_error_nth' (index_table lens k1) 0) by (unfold zlen in Hlen; lia). reflexivity. }
+    unfold grekey, grow, gcol. cbn [fst snd]. rewrite !Hz by assumption. reflexivity.
+  Qed.
+
+  (** coarsening commutes with merging (merge = group-by of the concatenated inputs, C07) *)
+  Theorem coarsen_merge_commute_g lens (a b : list recd) k :
+    coarsen_spec_g agg lens (groupby_agg agg (a ++ b)) k =
+    groupby_agg agg (coarsen_spec_g agg lens a k ++ coarsen_spec_g agg lens b k).
+  Proof.
+    unfold coarsen_spec_g. set (T := index_table lens k).
+    rewrite (grekey_mapkey T (groupby_agg agg (a ++ b))), groupby_mapkey, <- grekey_mapkey, map_app.
+    pose proof (groupby_agg_two_level agg Hdecomp [map (grekey T) a; map (grekey T) b]) as H.
+    cbn [map concat] in H. rewrite !app_nil_r in H. exact (eq_sym H).
+  Qed.
+End GenericCompose.
+
+Section GenericModelCompose.
+  Context {V : Type}.
+  Notation recd := (key * V)%type.
+  Variable agg : list V -> V.
+  Hypothesis Hperm : AggPerm agg.
+  Hypothesis Hdecomp : AggDecomp agg.
+
+  Lemma shadow_keys (l : list recd) : keys (shadow l) = map fst l.
+  Proof. unfold keys, shadow. rewrite map_map. reflexivity. Qed.
+
+  Lemma groupby_rowsorted (l : list recd) : RowSorted (shadow (groupby_agg agg l)).
+  Proof. apply ssorted_rowsorted. unfold SSorted. rewrite shadow_keys. apply groupby_agg_sorted. Qed.
+
+  Lemma coarsen_spec_inrange_g lens (px : list recd) k : 1 <= k -> Forall (fun n => 0 <= n) lens ->
+    InRange (sumZ lens) (shadow px) ->
+    InRange (sumZ (map (fun n => cdiv n k) lens)) (shadow (coarsen_spec_g agg lens px k)).
+  Proof.
+    intros Hk HF Hr. unfold InRange, coarsen_spec_g in *. apply Forall_forall. intros q Hq.
+    unfold shadow in Hq. apply in_map_iff in Hq as [p [<- Hp]].
+    assert (Hk' : In (fst p) (map fst (groupby_agg agg (map (grekey (index_table lens k)) px)))) by (apply in_map; exact Hp).
+    apply groupby_agg_keys in Hk'. rewrite map_map in Hk'. apply in_map_iff in Hk' as [p0 [E Hp0]].
+    rewrite Forall_forall in Hr.
+    destruct (Hr (fst p0, 0) ltac:(unfold shadow; apply in_map_iff; exists p0; auto)) as [Rr Rc].
+    unfold row, col in *. cbn [fst snd] in *. rewrite <- E. cbn [grekey fst snd]. unfold grow, gcol.
+    split; apply index_table_range; auto.
+  Qed.
+
+  (** the model of coarsen_cooler with any composing aggregation: k1 then k2 = k1*k2 *)
+  Theorem coarsen_compose_g blocks (px : list recd) k1 k2 cs1 bs1 cs2 bs2 cs bs :
+    1 <= k1 -> 1 <= k2 -> 1 <= cs1 -> 1 <= bs1 -> 1 <= cs2 -> 1 <= bs2 -> 1 <= cs -> 1 <= bs ->
+    ValidBlocks blocks -> RowSorted (shadow px) -> InRange (zlen (concat blocks)) (shadow px) ->
+    let sizes := map chrom_end blocks in
+    let c1 := coarsen_cooler_g agg (concat blocks) sizes px k1 cs1 bs1 in
+    coarsen_cooler_g agg (fst c1) sizes (snd c1) k2 cs2 bs2 = coarsen_cooler_g agg (concat blocks) sizes px (k1 * k2) cs bs.
+  Proof.
+    intros H1 H2 Hc1 Hb1 Hc2 Hb2 Hc Hb HV HS Hr sizes c1.
+    assert (H12 : 1 <= k1 * k2) by nia.
+    destruct (coarsen_bins_spec blocks k1 H1 HV) as (E1 & V1 & Ends1 & Lens1).
+    set (NB1 := map (coarsen_block k1) blocks) in *.
+    assert (Hlens : Forall (fun n => 0 <= n) (map zlen blocks)).
+    { eapply Forall_impl; [|exact (valid_lens blocks HV)]. intros; cbn in *; lia. }
+    pose proof Hr as Hr'. rewrite zlen_concat in Hr'.
+    destruct (coarsen_bins_spec NB1 k2 H2 V1) as (E2 & _). rewrite Ends1 in E2.
+    destruct (coarsen_bins_spec blocks (k1 * k2) H12 HV) as (E12 & _).
+    pose proof (coarsen_spec_inrange_g (map zlen blocks) px k1 H1 Hlens Hr') as Hr1.
+    assert (P1 : coarsen_pixels_g agg (concat blocks) (map chrom_end blocks) px k1 cs1 bs1 = coarsen_spec_g agg (map zlen blocks) px k1)
+      by (apply coarsen_exact; auto using inrange_rows).
+    assert (P12 : coarsen_pixels_g agg (concat blocks) (map chrom_end blocks) px (k1 * k2) cs bs = coarsen_spec_g agg (map zlen blocks) px (k1 * k2))
+      by (apply coarsen_exact; auto using inrange_rows).
+    assert (P2 : coarsen_pixels_g agg (concat NB1) (map chrom_end blocks) (coarsen_spec_g agg (map zlen blocks) px k1) k2 cs2 bs2
+                 = coarsen_spec_g agg (map zlen NB1) (coarsen_spec_g agg (map zlen blocks) px k1) k2).
+    { rewrite <- Ends1. apply coarsen_exact; auto.
+      - unfold coarsen_spec_g. apply groupby_rowsorted.
+      - apply inrange_rows. rewrite zlen_concat, Lens1, <- (map_map zlen (fun n => cdiv n k1)). exact Hr1. }
+    unfold c1, coarsen_cooler_g, sizes. cbn [fst snd]. rewrite E1, E2, E12, P1, P12, P2. f_equal.
+    - f_equal. unfold NB1. rewrite map_map. apply map_ext. intros blk. now apply coarsen_block_compose.
+    - rewrite Lens1. rewrite <- (map_map zlen (fun n => cdiv n k1)). now apply coarsen_spec_compose_g.
+  Qed.
+End GenericModelCompose.
+
+(* ================================================================ sum, max, min; not mean *)
+Lemma sumZ_perm : AggPerm sumZ.
+Proof. intros vs vs' H. induction H as [|x l l' _ IH|x y l|l l' l'' _ IH1 _ IH2]; unfold sumZ in *; cbn [fold_right] in *; lia. Qed.
+
+Lemma sumZ_composes : AggComposes sumZ.
+Proof.
+  intros Gs _. induction Gs as [|G t IH]; [reflexivity|]. cbn [map concat]. rewrite sumZ_app, <- IH. reflexivity.
+Qed.
+
+(** max and min together: [sel] picks the more extreme of two, [R x y] = "y is at least as extreme as x" *)
+Section Extremum.
+  Variable sel : Z -> Z -> Z.
+  Variable R : Z -> Z -> Prop.
+  Hypothesis sel_pick : forall a b, sel a b = a \/ sel a b = b.
+  Hypothesis sel_l : forall a b, R a (sel a b).
+  Hypothesis sel_r : forall a b, R b (sel a b).
+  Hypothesis R_refl : forall a, R a a.
+  Hypothesis R_trans : forall a b c, R a b -> R b c -> R a c.
+  Hypothesis R_antisym : forall a b, R a b -> R b a -> a = b.
+  Let aggx (l : list Z) : Z := match l with [] => 0 | x :: r => fold_left sel r x end.
+
+  Lemma fold_sel_spec r : forall x, (In (fold_left sel r x) (x :: r)) /\ Forall (fun y => R y (fold_left sel r x)) (x :: r).
+  Proof.
+    induction r as [|y r IH]; intros x; cbn [fold_left].
+    - split; [now left|]. constructor; [apply R_refl|constructor].
+    - destruct (IH (sel x y)) as [A B]. inversion B as [|? ? B1 B2]; subst. split.
+      + destruct A as [A|A]; [|right; right; exact A]. rewrite <- A.
+        destruct (sel_pick x y) as [ -> | -> ]; [now left|right; now left].
+      + constructor; [eapply R_trans; [apply sel_l|exact B1]|]. constructor; [eapply R_trans; [apply sel_r|exact B1]|exact B2].
+  Qed.
+
+  Lemma aggx_spec l : l <> [] -> In (aggx l) l /\ Forall (fun y => R y (aggx l)) l.
+  Proof. destruct l as [|x r]; [congruence|]. intros _. apply fold_sel_spec. Qed.
+
+  Lemma aggx_unique l m : In m l -> Forall (fun y => R y m) l -> aggx l = m.
+  Proof.
+    intros Hin Hall. assert (Hne : l <> []) by (intros ->; inversion Hin).
+    destruct (aggx_spec l Hne) as [A B]. rewrite Forall_forall in Hall, B. apply R_antisym; auto.
+  Qed.
+
+  Lemma aggx_perm : AggPerm aggx.
+  Proof.
+    intros vs vs' HP. destruct vs as [|x r].
+    - apply Permutation_nil in HP. now subst.
+    - assert (Hne : x :: r <> []) by discriminate. destruct (aggx_spec _ Hne) as [A B].
+      symmetry. apply aggx_unique; [eapply Permutation_in; eauto|eapply Permutation_Forall; eauto].
+  Qed.
+
+  Lemma aggx_composes : AggComposes aggx.
+  Proof.
+    intros Gs HG. destruct (concat Gs) as [|c0 cr] eqn:Ec.
+    - (* all blocks empty is impossible unless there are none *)
+      destruct Gs as [|G t]; [reflexivity|]. inversion HG as [|? ? HG1 _]; subst. destruct G; [congruence|discriminate].
+    - rewrite <- Ec. assert (Hne : concat Gs <> []) by (rewrite Ec; discriminate).
+      destruct (aggx_spec _ Hne) as [A B]. apply aggx_unique.
+      + apply in_concat in A as [G [HGin HA]]. apply in_map_iff. exists G. split; [|exact HGin].
+        rewrite Forall_forall in HG. apply aggx_unique; [exact HA|].
+        apply Forall_forall. intros y Hy. rewrite Forall_forall in B. apply B. apply in_concat. eauto.
+      + apply Forall_forall. intros y Hy. apply in_map_iff in Hy as [G [<- HGin]].
+        rewrite Forall_forall in HG, B. destruct (aggx_spec G (HG G HGin)) as [A' _]. apply B. apply in_concat. eauto.
+  Qed.
+End Extremum.
+
+Lemma agg_max_perm : AggPerm agg_max.
+Proof. apply (aggx_perm Z.max Z.le); intros; lia. Qed.
+Lemma agg_max_composes : AggComposes agg_max.
+Proof. apply (aggx_composes Z.max Z.le); intros; lia. Qed.
+Lemma agg_min_perm : AggPerm agg_min.
+Proof. apply (aggx_perm Z.min Z.ge); intros; lia. Qed.
+Lemma agg_min_composes : AggComposes agg_min.
+Proof. apply (aggx_composes Z.min Z.ge); intros; lia. Qed.
+
+Lemma agg_of_perm op : AggPerm (agg_of op).
+Proof. destruct op; [apply sumZ_perm|apply agg_max_perm|apply agg_min_perm]. Qed.
+Lemma agg_of_decomp op : AggDecomp (agg_of op).
+Proof. apply composes_decomp. destruct op; [apply sumZ_composes|apply agg_max_composes|apply agg_min_composes]. Qed.
+
+(** the mean does NOT compose: the mean of the block means is not the mean of everything *)
+Lemma agg_mean_not_composes : ~ AggComposes agg_mean.
+Proof. intros H. specialize (H [[1]; [3; 5]] ltac:(repeat constructor; discriminate)). vm_compute in H. discriminate. Qed.
